@@ -117,10 +117,21 @@ func LoadNormalised(opts LoadOpts, dry func(*Prog)) (*Prog, error) {
 	}
 	info := &NormInfo{}
 	const maxRounds = 4
-	for round := 1; round <= maxRounds; round++ {
-		res := planRound(p, round)
-		if len(res.files) == 0 {
-			break
+	for round := 0; round <= maxRounds; round++ {
+		var res roundPlan
+		if round == 0 {
+			if os.Getenv("MLB_NO_CANON") != "" {
+				continue
+			}
+			res = planCanon(p).roundPlan
+			if len(res.files) == 0 {
+				continue
+			}
+		} else {
+			res = planRound(p, round)
+			if len(res.files) == 0 {
+				break
+			}
 		}
 		try := func(withRemovals bool) (*Prog, error) {
 			changed := map[string][]byte{}
@@ -148,6 +159,9 @@ func LoadNormalised(opts LoadOpts, dry func(*Prog)) (*Prog, error) {
 			np, err = try(false)
 			if err != nil {
 				info.Fallback = fmt.Sprintf("round %d: expanded sources do not type-check (%v); analysing the previous form", round, firstLine(err.Error()))
+				if round == 0 {
+					continue
+				}
 				break
 			}
 		} else {
@@ -160,7 +174,7 @@ func LoadNormalised(opts LoadOpts, dry func(*Prog)) (*Prog, error) {
 	p.Norm = info
 	if d := os.Getenv("MLB_DUMP_NORM"); d != "" {
 		for name, b := range p.overlay {
-			if _, orig := opts.Overlay[name]; orig {
+			if ob, orig := opts.Overlay[name]; orig && string(ob) == string(b) {
 				continue
 			}
 			rel := strings.TrimPrefix(name, p.Dir)
@@ -520,12 +534,12 @@ func planRound(p *Prog, round int) roundPlan {
 				}
 				lit, ok := as.Rhs[0].(*ast.FuncLit)
 				name, ok2 := as.Lhs[0].(*ast.Ident)
-				if !ok || !ok2 || len(lit.Body.List) != 1 {
+				if !ok || !ok2 || len(lit.Body.List) == 0 {
 					return true
 				}
-				if _, isRet := lit.Body.List[0].(*ast.ReturnStmt); !isRet {
-					return true
-				}
+				// one expression: substituted at the calls; otherwise a block of statements expanded like a helper
+				_, single := lit.Body.List[0].(*ast.ReturnStmt)
+				single = single && len(lit.Body.List) == 1
 				obj := info.Defs[name]
 				if obj == nil {
 					return true
@@ -536,10 +550,18 @@ func planRound(p *Prog, round int) roundPlan {
 					return true
 				}
 				var calls []*ast.CallExpr
+				var blanks []*ast.AssignStmt
 				okAll := true
 				for id, o := range info.Uses {
 					if o != obj {
 						continue
+					}
+					// `_ = name` (written by an earlier expansion round to keep the binding used)
+					if bs, isAs := p.parents[id].(*ast.AssignStmt); isAs && bs.Tok == token.ASSIGN && len(bs.Lhs) == 1 && len(bs.Rhs) == 1 && bs.Rhs[0] == ast.Expr(id) {
+						if l, isId := bs.Lhs[0].(*ast.Ident); isId && l.Name == "_" {
+							blanks = append(blanks, bs)
+							continue
+						}
 					}
 					call, isCall := p.parents[id].(*ast.CallExpr)
 					if !isCall || call.Fun != ast.Expr(id) || containsNode(lit, call) {
@@ -555,6 +577,22 @@ func planRound(p *Prog, round int) roundPlan {
 				var eds []textEdit
 				var rs []rng
 				for _, call := range calls {
+					if !single {
+						var owner *ast.FuncDecl
+						for m := ast.Node(call); m != nil; m = p.parents[m] {
+							if fd, ok := m.(*ast.FuncDecl); ok {
+								owner = fd
+								break
+							}
+						}
+						ce, a, b, ok := in.expand(callSite{call: call, callee: pf, owner: owner, file: file, pkgFn: pf})
+						if !ok || overlaps(a, b) || inFrozen(a, b) {
+							return true
+						}
+						eds = append(eds, ce...)
+						rs = append(rs, rng{a, b})
+						continue
+					}
 					bb := &bodyBuilder{in: in, s: callSite{call: call, callee: pf, file: file, pkgFn: pf}, info: info}
 					if !bb.prepare() {
 						return true
@@ -582,6 +620,12 @@ func planRound(p *Prog, round int) roundPlan {
 				fe := in.file(as.Pos())
 				fe.edits = append(fe.edits, eds...)
 				fe.edits = append(fe.edits, textEdit{start: in.off(as.Pos()), end: in.off(as.End()), text: ""})
+				for _, bs := range blanks {
+					if !overlaps(bs.Pos(), bs.End()) && !inFrozen(bs.Pos(), bs.End()) {
+						fe.edits = append(fe.edits, textEdit{start: in.off(bs.Pos()), end: in.off(bs.End()), text: ""})
+						taken = append(taken, rng{bs.Pos(), bs.End()})
+					}
+				}
 				plan.expanded = append(plan.expanded, "local closure "+name.Name+" at "+p.Rel(as.Pos()))
 				return true
 			})
@@ -1061,9 +1105,18 @@ func (in *inliner) expand(s callSite) (eds []textEdit, a, b token.Pos, ok bool) 
 			b0.declare = make([]bool, nres)
 			for i, l := range st.Lhs {
 				id, ok := l.(*ast.Ident)
-				if !ok || (id.Name != "_" && (b0.localNames[id.Name] || b0.isBound(id.Name) || b0.declaresName(id.Name))) {
+				// a newly declared variable that has the name of the helper's named result at the same position
+				// plays the part of that result (both start as the zero value)
+				reuse := ok && id.Name != "_" && st.Tok == token.DEFINE && info.Defs[id] != nil && !b0.localNames[id.Name] && !b0.isBound(id.Name) && b0.isNamedResult(i, id.Name)
+				if !ok || (id.Name != "_" && !reuse && (b0.localNames[id.Name] || b0.isBound(id.Name) || b0.declaresName(id.Name))) {
 					direct = false
 					break
+				}
+				if reuse {
+					if b0.reuse == nil {
+						b0.reuse = map[int]bool{}
+					}
+					b0.reuse[i] = true
 				}
 				names = append(names, id.Name)
 				b0.declare[i] = st.Tok == token.DEFINE && id.Name != "_" && info.Defs[id] != nil
@@ -1079,6 +1132,7 @@ func (in *inliner) expand(s callSite) (eds []textEdit, a, b token.Pos, ok bool) 
 		}
 		if !direct {
 			b0.declare = nil
+			b0.reuse = nil
 		}
 		after := func() string {
 			if direct {
@@ -1282,6 +1336,28 @@ type bodyBuilder struct {
 	bindArgs   []string
 	localNames map[string]bool
 	declare    []bool // direct targets: which results need a declaration (nil: temporaries, all declared)
+	reuse      map[int]bool // direct targets that stand for the helper's named result of the same name
+}
+
+// isNamedResult: the helper's i-th result is named `name` and no other parameter or result has that name.
+func (b *bodyBuilder) isNamedResult(i int, name string) bool {
+	nr := b.namedResults()
+	if i >= len(nr) || nr[i] != name {
+		return false
+	}
+	for k, n := range nr {
+		if k != i && n == name {
+			return false
+		}
+	}
+	for _, pv := range b.params {
+		if pv != nil && pv.Name() == name {
+			if _, substituted := b.subst[pv]; !substituted {
+				return false
+			}
+		}
+	}
+	return true
 }
 
 // declaresName: the helper's signature declares the name (a parameter that is not substituted away, the
@@ -1407,6 +1483,13 @@ func (b *bodyBuilder) prepare() bool {
 			return false
 		}
 		b.binds = append(b.binds, pv.Name())
+		if _, isLit := ast.Unparen(b.args[i]).(*ast.FuncLit); isLit {
+			if tv, ok := b.info.Types[b.args[i]]; ok && tv.Type != nil && types.Identical(tv.Type, pv.Type()) {
+				// a function literal keeps its spelling: a later round expands its calls
+				b.bindArgs = append(b.bindArgs, b.argText[i])
+				continue
+			}
+		}
 		b.bindArgs = append(b.bindArgs, paren(tt)+paren(b.argText[i]))
 	}
 	// bound names must not capture identifiers of substituted arguments
@@ -1858,11 +1941,26 @@ func (b *bodyBuilder) build(mode int, tmp func(int) string) (string, string) {
 				blanks := strings.TrimSuffix(strings.Repeat("_, ", b.nres), ", ")
 				txt = blanks + " = " + strings.Join(res, ", ")
 			default:
-				var ts []string
+				var ts, rs2 []string
 				for i := 0; i < b.nres; i++ {
+					if i < len(res) && b.reuse[i] && strings.TrimSpace(res[i]) == tmp(i) {
+						continue // the result variable is returned as it is
+					}
 					ts = append(ts, tmp(i))
+					if i < len(res) {
+						rs2 = append(rs2, res[i])
+					}
 				}
-				txt = strings.Join(ts, ", ") + " = " + strings.Join(res, ", ")
+				if len(res) != b.nres {
+					rs2 = res // a call that yields all results
+					ts = ts[:0]
+					for i := 0; i < b.nres; i++ {
+						ts = append(ts, tmp(i))
+					}
+				}
+				if len(ts) > 0 {
+					txt = strings.Join(ts, ", ") + " = " + strings.Join(rs2, ", ")
+				}
 			}
 			if rs == tail {
 				edits = append(edits, posEdit{rs.Pos(), rs.End(), txt})
@@ -1914,7 +2012,7 @@ func (b *bodyBuilder) build(mode int, tmp func(int) string) (string, string) {
 	// named results are ordinary locals of the expanded block (zero-initialised)
 	if names := b.namedResults(); len(names) > 0 {
 		for i, nm := range names {
-			if nm == "_" {
+			if nm == "_" || b.reuse[i] {
 				continue
 			}
 			tt, _ := b.typeText(b.sig.Results().At(i).Type())
